@@ -88,7 +88,16 @@ class World:
             if kind == "editBCSilent":
                 np.copyto(side.c, u)
             else:
-                how = self.rng.choice(["assign-c", "slice-c", "fixedValue", "fixedGradient", "newton", "assign-ab", "noflux+c"])
+                how = self.rng.choice(["assign-c", "slice-c", "fixedValue", "fixedGradient", "newton", "assign-ab", "noflux+c", "toggle-periodic", "toggle-periodic"])
+                if how == "toggle-periodic":
+                    # only the high side of the last axis is ever toggled (so every toggle changes the behaviour), never a radial axis
+                    ax = self.mc.dim - 1
+                    if ax == 0 and RADIAL[self.mc.kind]:
+                        how = "assign-c"
+                    else:
+                        side = getattr(bc, SIDES[2 * ax + 1])
+                        side.periodic = not side.periodic
+                        return "none", None
                 if how == "assign-c":
                     side.c = u
                 elif how == "slice-c":
@@ -289,7 +298,13 @@ def search_c09(rng, n, kinds=("cart1", "cart2", "cyl2", "pol2", "sph1", "cart3",
         kind = kinds[t % len(kinds)]
         mc = rand_mesh(rng, kind, nmax=2)
         W = World(mc, rng)
-        h = random_history(rng, rng.choice([5, 8, 12, 20])) + [("solve", 0)]
+        if t % 2 == 0:
+            h = random_history(rng, rng.choice([5, 8, 12, 20])) + [("solve", 0)]
+        else:
+            # two variables on one shared BC object, edits and solves of both interleaved
+            tail = [rng.choice([("editBC", 0), ("editBC", 0), ("editBCSilent", 0), ("solve", 0), ("solve", 1), ("applyBCs", 0), ("applyBCs", 1),
+                                ("editVal", 1), ("solveExplicit", 0), ("copy", 1)]) for _ in range(rng.choice([4, 6, 10]))]
+            h = [("newBC",), ("newVar", 0), ("newVar", 0)] + tail + [("solve", 1), ("solve", 0)]
         inp = {"history": [op_to_str(o) for o in h], "mesh": mc.describe()}
         S.sig(tuple(o[0] for o in h))
         for k, op in enumerate(h):
@@ -309,7 +324,8 @@ def search_c09(rng, n, kinds=("cart1", "cart2", "cyl2", "pol2", "sph1", "cart3",
                     v = W.vars[op[1]]; w = W.vars[-1]
                     eq = np.array_equal(np.asarray(w._value), np.asarray(v._value), equal_nan=True)
                     w.value = w.value + 1.0
-                    getattr(w.BCs, SIDES[0]).c = W.uniq()
+                    for nm in SIDES[:2 * mc.dim]:
+                        getattr(w.BCs, nm).c = W.uniq()
                     indep = np.array_equal(np.asarray(v._value), before[0], equal_nan=True) and (before[1] is None or v.BCs._state_token() == before[1]) \
                         and not np.shares_memory(np.asarray(w._value), np.asarray(v._value)) and w.BCs is not v.BCs
                     S.check(bool(eq and indep), "C09:copy-independent", "copy() is not equal to / independent of its original", {**inp, "step": k}, None, None)
